@@ -54,3 +54,12 @@ func verifRoundTripMP(layout Layout, cs []Coord) []Coord {
 	}
 	return g.Coords()
 }
+
+// verifExtendOrder extends two equal bounds with the same two geometries in
+// opposite orders.
+func verifExtendOrder(b1, b2 *Bounds, g1, g2 T) {
+	b1.Extend(g1)
+	b1.Extend(g2)
+	b2.Extend(g2)
+	b2.Extend(g1)
+}
